@@ -264,3 +264,27 @@ Proof.
   intros Hp Hd. replace (GeneratedFS.Line3_End (p, d)) with (tv (fline_end (vt p) (vt d))) by (opent; symmetry; exact (gen_Line3_End_eq (FV _ _ _) (FV _ _ _))).
   rewrite vt_tv. apply fadd_exact; auto. unfold K; lia.
 Qed.
+
+(* ---- common.DegreeToRadian / common.RadianToDegree as regenerated (generated/GeneratedF.v): they are VecF.deg2rad / rad2deg — one correctly
+   rounded product with the rounded constant — so the value theorems of PointLaws.v hold of the regenerated code. Proved here by GenFTac
+   directly (GenEqFPoint.v / GenEqFVertex.v, which hold the same equalities for C01 / C02, stay outside C20's closure). ---- *)
+From SID Require GenFTac.
+Lemma gen_DegreeToRadian_is_deg2rad d : GeneratedF.DegreeToRadian d = deg2rad d.
+Proof. unfold deg2rad. GenFTac.gen_feq ltac:(unfold c_deg2rad). Qed.
+Lemma gen_RadianToDegree_is_rad2deg r : GeneratedF.RadianToDegree r = rad2deg r.
+Proof. unfold rad2deg. GenFTac.gen_feq ltac:(unfold c_rad2deg). Qed.
+Open Scope R_scope.
+Theorem gen_degree_to_radian_value d : fin d ->
+  Rabs (round radix2 (SpecFloat.fexp FloatOps.prec FloatOps.emax) ZnearestE (rv d * c_d2r_R)) < bpow radix2 FloatOps.emax ->
+  rv (GeneratedF.DegreeToRadian d) = round radix2 (SpecFloat.fexp FloatOps.prec FloatOps.emax) ZnearestE (rv d * c_d2r_R).
+Proof. rewrite gen_DegreeToRadian_is_deg2rad. apply deg2rad_value. Qed.
+Theorem gen_radian_to_degree_value r : fin r ->
+  Rabs (round radix2 (SpecFloat.fexp FloatOps.prec FloatOps.emax) ZnearestE (rv r * c_r2d_R)) < bpow radix2 FloatOps.emax ->
+  rv (GeneratedF.RadianToDegree r) = round radix2 (SpecFloat.fexp FloatOps.prec FloatOps.emax) ZnearestE (rv r * c_r2d_R).
+Proof. rewrite gen_RadianToDegree_is_rad2deg. apply rad2deg_value. Qed.
+(* evaluated on the regenerated code: 180 degrees is the float64 nearest to pi, and back *)
+Example gen_degree_radian_evaluated :
+  GeneratedF.DegreeToRadian 180%float = 0x1.921fb54442d18p+1%float /\ GeneratedF.RadianToDegree 0x1.921fb54442d18p+1%float = 180%float /\
+  GeneratedF.DegreeToRadian 0%float = 0%float.
+Proof. repeat split; vm_compute; reflexivity. Qed.
+Close Scope R_scope.
